@@ -55,6 +55,52 @@ def immutable_samples(cx, run, R="R8"):
         run.ok(R, "no store to a queued sample", "%d store sites in fragmented::*, none targets a field of a queued sample" % n)
 
 
+COPY_FNS = {"std::slice::to_vec", "alloc::slice::to_vec", "std::borrow::ToOwned::to_owned", "std::clone::Clone::clone", "std::convert::From::from", "std::convert::Into::into",
+            "std::vec::Vec::from", "core::slice::to_vec", "std::slice::to_owned", "<[T] as std::borrow::ToOwned>::to_owned"}
+
+
+def verbatim_record(cx, run, R="R9"):
+    """every record pushed onto the sample queue by the write entry point is built from that call's own parameters, unmodified:
+    each scalar field is a parameter itself, the payload field is an exact copy (to_vec / to_owned / clone / into) of the slice
+    parameter, and no two fields come from the same parameter"""
+    u = cx.u
+    b = u.bodies.get(WRITE)
+    if b is None:
+        run.bad(R, "anchor " + WRITE, "write entry point not found")
+        return
+    n = 0
+    for bb, t, name, info in mir.calls(b):
+        if not (name and mir.norm(name) == "std::vec::Vec::push" and len(t["args"]) == 2):
+            continue
+        v = sym.expr(b, t["args"][1])
+        if not (v[0] == "agg" and "FragmentSample" in str(v[1])):
+            continue
+        n += 1
+        used = {}
+        for fname, val in zip(v[2], v[3]):
+            e = val
+            copied = False
+            while e[0] == "call" and mir.norm(e[1]) in COPY_FNS and len(e[2]) == 1:
+                e = e[2][0]
+                copied = True
+            while e[0] == "ref":
+                e = e[1]
+            src = None
+            if e[0] == "arg":
+                src = e[1]
+            elif e[0] in ("refplace", "load") and str(e[1]).startswith("arg") and str(e[1])[3:].isdigit():
+                src = int(str(e[1])[3:])
+            ty = b["locals"][src]["ty"] if src is not None else ""
+            is_slice = ty.lstrip("&").startswith("[") or "Vec<" in ty
+            good = src is not None and src >= 2 and (copied == is_slice or (is_slice and copied)) and src not in used
+            pname = mir.debug_name(b, src) if src is not None else None
+            run.check(good, R, "queued %s <- parameter" % fname, "`%s` := %s`%s`" % (fname, "copy of " if copied else "", pname),
+                      "the queued sample's `%s` is %s, not the call's own `%s` parameter unmodified: what the segments later describe is not what was submitted" % (fname, sym.show(val)[:140], fname), mir.loc_of(t))
+            if src is not None:
+                used[src] = fname
+    run.floor(R, n, 1, "records pushed by the write entry point")
+
+
 def check(prog, run):
     run.rule("R1", "take-all: stores to the sample queue are exactly {push in write_video, mem::take in flush_segment}; the segment builder receives the taken vector")
     run.rule("R2", "empty flush is a no-op: the None exit of flush_segment is store-free")
@@ -70,6 +116,8 @@ def check(prog, run):
         return
     run.rule("R8", "queued samples are immutable: no field of a queued/taken fragment sample is stored to after the push")
     immutable_samples(cx, run)
+    run.rule("R9", "verbatim record: each field of the record queued by write_video is the call's own parameter (payload: an exact copy of the slice parameter)")
+    verbatim_record(cx, run)
     u = cx.u
     for f in [WRITE, FLUSH, NEW, INIT] + QUERIES:
         if f not in u.bodies:
